@@ -113,17 +113,19 @@ class DomainAdapter(Adapter):
                 bad('NotStale.r', what='r_i = (i+1) dr', err=rel(d.r, idx * BDR))
             if rel(d.k, idx * BDK) > 1e-13:
                 bad('NotStale.k', what='k_j = (j+1) dk', err=rel(d.k, idx * BDK))
-            if rel(np.asarray(d.long_r).reshape(-1), idx * BDR) > 1e-13:
+            # long_r, DST_II_coeffs, DST_III_coeffs are internal attributes (PRISM.cost reads long_r): judged where they exist; a
+            # Domain without them is still judged through its transforms (dense reference matrices) below
+            if hasattr(d, 'long_r') and rel(np.asarray(d.long_r).reshape(-1), idx * BDR) > 1e-13:
                 bad('NotStale.long_r', err=rel(np.asarray(d.long_r).reshape(-1), idx * BDR))
             f = Domain(n, dr=d.dr)
-            for attr in ('dr', 'dk', 'r', 'k', 'DST_II_coeffs', 'DST_III_coeffs'):
+            for attr in [a for a in ('dr', 'dk', 'r', 'k', 'DST_II_coeffs', 'DST_III_coeffs') if hasattr(d, a)]:
                 a1, a2 = np.asarray(getattr(d, attr)), np.asarray(getattr(f, attr))
                 if a1.shape != a2.shape or rel(a1, a2) > 1e-13:
                     bad('FreshEquivalent', attribute=attr, err=rel(a1, a2) if a1.shape == a2.shape else 'shape')
                     break
         if out:
             return out[:3]
-        if 'coeffs' in self.which:
+        if 'coeffs' in self.which and hasattr(d, 'DST_II_coeffs') and hasattr(d, 'DST_III_coeffs'):
             idx = np.arange(1, n + 1)
             e2 = self.c2 * (idx * BDR) * BDR
             e3 = self.c3 * (idx * BDK) * BDK
@@ -138,7 +140,7 @@ class DomainAdapter(Adapter):
             import copy
             d2 = copy.deepcopy(d)
             probe = np.cos(0.37 * np.arange(1, n + 1)) + 0.2
-            for attr in ('dr', 'dk', 'r', 'k', 'DST_II_coeffs', 'DST_III_coeffs', 'long_r'):
+            for attr in [a for a in ('dr', 'dk', 'r', 'k', 'DST_II_coeffs', 'DST_III_coeffs', 'long_r') if hasattr(d, a)]:
                 a1, a2 = np.asarray(getattr(d, attr)), np.asarray(getattr(d2, attr))
                 if a1.shape != a2.shape or not np.array_equal(a1, a2):
                     bad('FreshEquivalent.deepcopy', attribute=attr)
